@@ -29,7 +29,7 @@ type GenOpts struct {
 	Spelling     bool // per-node spelling bits (omitted end tags, quoting, case)
 
 	// Want, when set, is consulted each time the generator has drawn that it
-	// wants one of the optional features "li-p", "li-trailing", "tfoot",
+	// wants one of the optional features "li-p", "li-trailing", "li-section-list", "tfoot",
 	// "spans", "first-row-colspan", "chrome-in-leaf", "nested-table",
 	// "a-block", "headerless-table"; returning false vetoes that
 	// single use (the harness passes vr.Want to switch off features tied to a
@@ -341,7 +341,12 @@ func (g *gen) list(c ctx, level int) *Node {
 			if g.chance(5, "li-only-nested") {
 				li.Kids = nil // <li><ul>…</ul></li>: an item that is only a sub-list
 			}
-			li.Kids = append(li.Kids, g.list(c, level+1))
+			sub := g.list(c, level+1)
+			if g.want("li-section-list", g.o.Lists, g.chance(6, "li-section-list")) {
+				// a "card" inside the item: the sub-list stands in a sectioning element, whose whole text is the item's
+				sub = g.el(g.pick([]string{"section", "article"}, "card"), sub)
+			}
+			li.Kids = append(li.Kids, sub)
 			if g.want("li-trailing", g.o.LiTrailing, g.chance(5, "li-trailing")) {
 				li.Kids = append(li.Kids, g.text())
 			}
